@@ -749,6 +749,43 @@ def lowering_tie(run, rnd, quick, batch=0):
     return None, []
 
 
+def gen_nested_try(rnd):
+    """two nested try statements with typed handlers: an explicit raise in the inner body (under an if / in a loop) of
+    a type that only the OUTER handler catches, a variable assigned on the way to the raise and read in the outer handler,
+    and code after the inner try (still inside the outer one) that rebinds it -- the raise must reach every enclosing
+    handler in the CFG, or liveness drops the variable"""
+    k = [0]
+
+    def K():
+        k[0] += 1
+        return k[0]
+    inner_t, outer_t = rnd.sample(['E0', 'E1', 'E2'], 2)
+    L = ['def f(a, b, c):', '    x = T(%d, a)' % K(), '    y = T(%d, b)' % K(), '    try:', '        try:']
+    ctrl = rnd.choice(['if', 'if', 'while', 'for'])
+    head = {'if': 'if D(%d):' % K(), 'while': 'while D(%d):' % K(), 'for': 'for i1 in L(%d):' % K()}[ctrl]
+    # mostly a pure write (no read of x in the statement): only then can x drop out of the statement's state
+    body = ['x = T(%d, x)' % K() if rnd.random() < 0.25 else 'x = T(%d, a)' % K()]
+    if rnd.random() < 0.3:
+        body.append('y = T(%d, y)' % K())
+    if rnd.random() < 0.5:
+        body += ['if D(%d):' % K(), '    raise %s()' % outer_t]
+    else:
+        body.append('raise %s()' % outer_t)
+    L += ['            ' + head] + ['                ' + t for t in body]
+    L.append('            y = T(%d, y)' % K())
+    if rnd.random() < 0.4:
+        L += ['            if D(%d):' % K(), '                raise %s()' % inner_t]
+    L += ['        except %s:' % inner_t, '            x = T(%d)' % K()]
+    if rnd.random() < 0.75:
+        L.append('        x = T(%d)' % K())
+    if rnd.random() < 0.5:
+        L.append('        y = T(%d, y)' % K())
+    L += ['    except %s:' % outer_t]
+    L.append(rnd.choice(['        return T(%d, x, y)' % K(), '        y = T(%d, x)' % K(), '        x = T(%d, x, y)' % K()]))
+    L.append('    return T(%d, x, y)' % K())
+    return '\n'.join(L) + '\n'
+
+
 def search_on(programs, rnd):
     """targeted search after a broken correspondence: the programs on which model and pass disagree are run
     original vs converted under many decision vectors"""
@@ -819,6 +856,9 @@ def check(run):
         name, opts, _w = rnd.choices(streams, [s[2] for s in streams])[0]
         srcs.append(progs.gen_function(rnd, opts))
         kinds.append((name, opts.mutation))
+    for _ in range(max(6, nprog // 15)):
+        srcs.append(gen_nested_try(rnd))
+        kinds.append(('nested-try-typed', False))
     # corpus first
     cdir = os.path.join(vlib.ROOT, 'corpus', 'C01')
     corpus = []
